@@ -32,7 +32,7 @@ def _key(r):
     k = {"fam": r["fam"], "clause": r["cl"], "route": r["route"], "dtype": r["d"]}
     k["vclass"] = r["vc"]
     k["factor"] = "up" if r["k"] > 0 else "down"
-    if r["fam"] in ("ufunc", "comb"):
+    if r["fam"] in ("ufunc", "comb", "ureal"):
         k["dtype1"] = r["d1"]
         k["out"] = "none" if r["out"] == "none" else ("inplace" if r["out"] == "inplace" else "buffer")
     else:
@@ -69,7 +69,7 @@ def _validate(ck, obs, label):
             ent = part[r["i"] - 1]
             c = ent["c"]
             o = ent["o"]
-            side = o if c["fam"] in ("ufunc", "comb") else (o["c"] if r["route"] == c["route"] else o["i"])
+            side = o if c["fam"] in ("ufunc", "comb", "ureal") else (o["c"] if r["route"] == c["route"] else o["i"])
             detail = {"case": _short(c), "observed": _oshort(side)}
             if r["cl"] == "C17c":
                 detail["observed_inplace"] = _oshort(o["i"])
@@ -88,11 +88,13 @@ def _short(c):
         return f"{c['route']}/{c['twin']} {c['d']} {c['vc']} {'scalar' if c['shape'] == 'q' else 'array'} {fac}"
     if c["fam"] == "comb":
         return f"{c['form']} {c['op']} array {c['d0']}[u{c['ua']}] {c['va'][1]} / elements {c['d1']} [u{c['uf']}, u{c['us']}] {c['vc1']}"
+    if c["fam"] == "ureal":
+        return f"np.{c['op']} {c['d0']}[{impl_units(c['u0'])}] {c['d1']}[{impl_units(c['u1'])}] {c['vc0']},{c['vc1']}"
     return f"np.{c['op']} {c['d0']}[u{c['u0']}] {c['d1']}[u{c['u1']}] {c['vc0']},{c['vc1']} {c['shape']} out={c['out']} x2^{c['k']}"
 
 
 def impl_units(i):
-    return {1: "m", 2: "la", 3: "lc", 4: "km", 5: "mile"}[i]
+    return {1: "m", 2: "la", 3: "lc", 4: "km", 5: "mile", 6: "cm", 7: "mm", 8: "Mm", 9: "ym", 10: "Ym", 11: "lnd", 12: "l_pl", 13: "Wh", 14: "J", 15: "dB", 16: "B"}[i]
 
 
 def _oshort(o):
@@ -137,7 +139,7 @@ def run(ck):
     def export(g):
         open(ck.spec + f"/{cfg}_{g}.cfg", "w").write(base.replace("Fams <- FamsAll", "Fams <- " + g))
         r = ck.tlc("MC_C17", f"{cfg}_{g}", workers=1, label=f"case table {cfg} {g} (export + model-level invariants)", required_actions=["Next"], timeout=3000)
-        got = [x for x in r.records if x.get("fam") in ("conv", "ufunc", "comb")]
+        got = [x for x in r.records if x.get("fam") in ("conv", "ufunc", "comb", "ureal")]
         if len(got) != r.distinct - 1:
             raise MachineryFailure(f"exported {len(got)} cases but TLC found {r.distinct - 1} ({g})")
         return got
@@ -151,7 +153,7 @@ def run(ck):
     model_classes = sorted({(c["fam"], x["route"], x["cl"]) for c in cases for x in c["mfail"]})
     ck.cov["model_level_failing_classes"] = [list(x) for x in model_classes]
     ck.cov["exhaustive"] = True
-    ck.cov["bound"] = {"cfg": cfg, "cases": len(cases), "conv": sum(c["fam"] == "conv" and not c["real"] for c in cases), "conv_real_units": sum(c["fam"] == "conv" and c["real"] for c in cases), "ufunc": sum(c["fam"] == "ufunc" and c["out"] == "none" for c in cases), "ufunc_out": sum(c["fam"] == "ufunc" and c["out"] != "none" for c in cases), "comb": sum(c["fam"] == "comb" for c in cases)}
+    ck.cov["bound"] = {"cfg": cfg, "cases": len(cases), "conv": sum(c["fam"] == "conv" and not c["real"] for c in cases), "conv_real_units": sum(c["fam"] == "conv" and c["real"] for c in cases), "ufunc": sum(c["fam"] == "ufunc" and c["out"] == "none" for c in cases), "ufunc_out": sum(c["fam"] == "ufunc" and c["out"] != "none" for c in cases), "comb": sum(c["fam"] == "comb" for c in cases), "ufunc_real_units": sum(c["fam"] == "ureal" for c in cases)}
     rnd = random.Random(ck.seed)
     ck.sample(_short(cases[rnd.randrange(len(cases))]))
     ck.sample(_short(cases[rnd.randrange(len(cases))]))
